@@ -167,6 +167,84 @@ theorem addKeyCheck_err_of_web : ∀ (rows : List DidRow), (∀ r ∈ rows, r.ve
       · exact absurd hm hr
       · exact ⟨x, hx, hm⟩
 
+/-! ### a failing clean-up transaction leaves the world of a process stop -/
+
+/-- for the Commit loop without an injected stop there is a stop point `k` that publishes the same and after which the
+    clean-up does not run: the first failing did:nuts Commit, or "after the last call" -/
+theorem commitLoop_stop_witness (f : Fault) (hf : f = .none ∨ f = .failNuts) (chs : List Change) :
+    ∀ (ms : List Method) (i : Nat) (pub : Nat → List Content), ∃ k, i ≤ k ∧
+      (commitLoop (.stop k) chs ms i pub).1 = (commitLoop f chs ms i pub).1 ∧
+      ((commitLoop (.stop k) chs ms i pub).2 = .stopped ∨
+        ∃ j, (commitLoop (.stop k) chs ms i pub).2 = .completed j ∧ j ≤ k)
+  | [], i, pub => ⟨i, Nat.le_refl _, rfl, .inr ⟨i, rfl, Nat.le_refl _⟩⟩
+  | m :: ms, i, pub => by
+    have hfi : ∀ j, (f = Fault.stop j) = False := by
+      intro j; rcases hf with rfl | rfl <;> simp
+    cases hfind : chs.find? (fun ch => ch.method = m) with
+    | none =>
+      obtain ⟨k, hk, h1, h2⟩ := commitLoop_stop_witness f hf chs ms i pub
+      refine ⟨k, hk, ?_, ?_⟩
+      · simp only [commitLoop, hfind]; exact h1
+      · simp only [commitLoop, hfind]; exact h2
+    | some ch =>
+      cases m with
+      | web =>
+        obtain ⟨k, hk, h1, h2⟩ := commitLoop_stop_witness f hf chs ms (i + 1) pub
+        have hne : (Fault.stop k = Fault.stop i) = False := by
+          simp only [Fault.stop.injEq, eq_iff_iff, iff_false]; omega
+        refine ⟨k, by omega, ?_, ?_⟩
+        · simp only [commitLoop, hfind, hne, hfi, if_false]; exact h1
+        · simp only [commitLoop, hfind, hne, if_false]; exact h2
+      | nuts =>
+        by_cases hstop : f = .failNuts
+        · subst hstop
+          refine ⟨i, Nat.le_refl _, ?_, .inl ?_⟩
+          · simp only [commitLoop, hfind, if_true, reduceCtorEq, if_false]
+          · simp only [commitLoop, hfind, if_true]
+        · have hnone : f = .none := by rcases hf with h | h; exact h; exact absurd h hstop
+          subst hnone
+          cases hc : commitNuts pub ch with
+          | ok pub' =>
+            obtain ⟨k, hk, h1, h2⟩ := commitLoop_stop_witness .none (.inl rfl) chs ms (i + 1) pub'
+            have hne : (Fault.stop k = Fault.stop i) = False := by
+              simp only [Fault.stop.injEq, eq_iff_iff, iff_false]; omega
+            refine ⟨k, by omega, ?_, ?_⟩
+            · simp only [commitLoop, hfind, hne, reduceCtorEq, if_false, hc]; exact h1
+            · simp only [commitLoop, hfind, hne, reduceCtorEq, if_false, hc]; exact h2
+          | err e =>
+            refine ⟨i, Nat.le_refl _, ?_, .inl ?_⟩
+            · simp only [commitLoop, hfind, if_true, reduceCtorEq, if_false, hc]
+            · simp only [commitLoop, hfind, if_true]
+          | panic e =>
+            refine ⟨i, Nat.le_refl _, ?_, .inl ?_⟩
+            · simp only [commitLoop, hfind, if_true, reduceCtorEq, if_false, hc]
+            · simp only [commitLoop, hfind, if_true]
+
+/-- **a database error in the clean-up transaction leaves exactly the world of a process stop** at some point of the
+    Commit loop (or the operation changed nothing) -/
+theorem cleanup_failure_is_a_stop (cfg : Cfg) (w : World) (o : Op) (order : List Method) (nf : Bool) :
+    ∃ f, (stepOpCleanupFails cfg w o order nf).1 = (stepOp cfg w o order f).1 := by
+  unfold stepOpCleanupFails
+  cases ht : tx1 cfg w o with
+  | err e => exact ⟨.none, by simp only [stepOp, stepOpCore, ht]⟩
+  | panic e => exact ⟨.none, by simp only [stepOp, stepOpCore, ht]⟩
+  | ok r =>
+    obtain ⟨w1, chs⟩ := r
+    simp only
+    by_cases he : chs.isEmpty = true
+    · rw [if_pos he]; exact ⟨.none, rfl⟩
+    · rw [if_neg he]
+      obtain ⟨k, _, h1, h2⟩ := commitLoop_stop_witness (if nf = true then Fault.failNuts else Fault.none)
+        (by cases nf <;> simp) chs order 0 w1.pub
+      refine ⟨.stop k, ?_⟩
+      simp only [stepOp, ht, Fault.inTx1, stepOpCore]
+      rw [← h1]
+      generalize commitLoop (.stop k) chs order 0 w1.pub = r at h2
+      obtain ⟨p, ph⟩ := r
+      rcases h2 with h2 | ⟨j, h2, hj⟩
+      · simp only at h2; subst h2; rfl
+      · simp only at h2; subst h2; simp only [hj, if_true]
+
 /-! ### `sortDIDsByMethod`: the comparator is a strict weak order -/
 
 /-- the comparator without its (redundant) first branch -/
